@@ -253,4 +253,20 @@ HARNESSES = [
                    "math.ceil(M / 10^6): lemma cut trunc(fp(a)/1e6) == a div 10^6"],
             patches=[(containers_mod, "IWork", FakeIWork)]),
 ]
+# recalculate_merged_cells is one of the rebuild steps: what it writes must be what a reader takes from it - the merge-map
+# codec harnesses are shared with C12
+from specs import c12 as _c12   # noqa: E402
+
+def h07d_merge_map(r0, c0, nr, nc, slack_r, slack_c):
+    """the merge map a save writes is what a reader takes from it (rows the 16-bit row field can hold: the others are
+    C12's known finding KF-C12-row16)"""
+    assume(r0 + nr <= 65536)
+    _c12.h12b_codec(r0, c0, nr, nc, slack_r, slack_c)
+
+
+_h12b = [h for h in _c12.HARNESSES if h.name == "H12b"][0]
+HARNESSES.append(Harness("H07d", h07d_merge_map, _h12b.inputs,
+                         bounds="merge origin anywhere in rows < 65536 x columns < 1000 (symbolic), size 1..3 x 1..3",
+                         stubs=list(_h12b.stubs), models=dict(_h12b.models)))
+HARNESSES += [h for h in _c12.HARNESSES if h.name == "H12d"]
 PROPERTY = "C07"
